@@ -19,7 +19,7 @@ ASSUMPTIONS = ["statistical verdicts are 'not rejected at alpha=1e-9 per test' (
                "a product-only sampler reaches 36 of the 720 classes"]
 REQUIRED_SUBS = ["valid.random_clifford_map", "valid.random_pauli_map", "valid.random_clifford_state", "valid.random_pauli_state",
                  "valid.rcc.*", "uniform.n1", "uniform.n2.classes", "uniform.n2.signs", "uniform.n2.coverage", "entangle.n3",
-                 "paulimap.n2", "signs.fair", "resample", "uniform.rows.n3", "uniform.rows.n4", "coin.fair", "coin.positions", "paulimap.independent"]
+                 "paulimap.n2", "signs.fair", "resample", "uniform.rows.n3", "uniform.rows.n4", "coin.fair", "coin.positions", "coin.independent", "paulimap.independent"]
 
 
 def shards(tier):
@@ -314,3 +314,10 @@ def run_coins(shard, rec, B):
             rec.batch("coin.samples", outs.size, 0, None)
             rec.check("coin.positions", not const, [name, R], True, expected="both outcomes at every position within %d runs" % R,
                       observed={"constant_positions": const[:10], "n_constant": len(const), "positions": int(outs.shape[1])})
+            if name.startswith("alternating"):
+                # a fair coin does not remember: outcomes at lag 1, 2, 3 within one call are independent (their XOR is a fair coin)
+                for lag in (1, 2, 3, 4):
+                    x = (outs[:, lag:] ^ outs[:, :-lag]).reshape(-1)
+                    tl = stats.binom_two_sided(int(x.size), int(x.sum()))
+                    rec.check("coin.independent", tl > stats.ALPHA, [name, "lag", lag], True, expected="XOR of outcomes %d apart is fair" % lag,
+                              observed={"ones": int(x.sum()), "n": int(x.size), "tail": tl})
